@@ -70,9 +70,20 @@ CHECKS["C13"] = dict(
     note="Dynamic half covers the paths exercised; static half covers every instantiated path of this fixture (host target only - no bare-metal target is installed). String responses (std) are excluded.",
     design="5/C13")
 
+CHECKS["C01"] = dict(
+    technique="property-based testing over generated programs (declaration sets compiled through the real macro) with an independent reference dictionary; exhaustive enumeration of declared spellings and systematic near misses per set, plus proptest mutations",
+    text="Seeded generator emits declaration sets (optional nodes anywhere, non-prefix short forms, digits/underscores, common commands, command+query, sync/async, all attribute combinations); the crate is compiled by cargo and every declared spelling and every systematic near miss of every declaration is run alone and judged by a spec-level dictionary that shares no code with the macro or parser: exactly one invocation of the right handler, or none and exactly one -113. Standard commands are probed in every spelling whether requested or not.",
+    note="Declaration sets are bounded (depth <= 4, <= 14 declarations, ASCII mnemonics); all-optional paths are excluded. The compiler is the executor of the generated case.",
+    design="5/C01", engine="generated-program-pipeline")
+CHECKS["C02"]["engine"] = "proptest-harness + generated-program-pipeline"
+CHECKS["C06"]["engine"] = "proptest-harness + generated-program-pipeline"
+CHECKS["C14"] = dict(
+    technique="property-based testing over generated programs: ambiguous declaration sets must fail to compile (cargo check diagnostics mapped to each set), their minimally de-collided twins must compile and reach every handler (reference dictionary as oracle)",
+    text="A seeded generator builds collision-free sets plus one colliding pair of nine kinds (identical, short/long induced, optional-node induced, standard command redeclared, query variants). All ambiguous sets go into one crate: cargo check must report the macro's rejection in the module of every set. The twins are compiled and every declared spelling must reach exactly its own handler (nothing shadowed).",
+    note="Which sets are ambiguous is decided by the harness's reference dictionary. The compiler is the executor of the generated case.",
+    design="5/C14", engine="generated-program-pipeline")
+
 PENDING = {
-    "C01": "check not built yet (in progress): generated-interface pipeline",
-    "C14": "check not built yet (in progress): generated-interface pipeline",
 }
 
 def main():
@@ -103,6 +114,8 @@ def main():
             "add_only": True,
         },
         "engines": [
+            {"name": "generated-program-pipeline", "path": "/verif/harness/gen", "serves_properties": ["C01", "C02", "C06", "C14"],
+             "kind_free_text": "vcore::treegen generates declaration sets from the seed; gen/build.rs and genamb/build.rs emit them as Rust modules using the real #[microscpi::interface] macro; cargo compiles them (genamb is expected to fail, its diagnostics are mapped back to each generated set); a driver linked into the same crate attacks every generated interface"},
             {"name": "proptest-harness", "path": "/verif/harness", "serves_properties": sorted(CHECKS.keys()),
              "kind_free_text": "cargo workspace: vcore (choice tapes, proptest driver, reference models, exact decimal/float arithmetic, decoder), vrun (executor, recording writer/adapter/queue), fixture (interfaces generated through the real #[microscpi::interface] macro, one binary per property)"},
         ],
